@@ -1,5 +1,6 @@
 import CqlVerif.Model.Ring
 import CqlVerif.Lemmas.Ring
+import CqlVerif.Model.Md5
 /-!
 # C10 — Virtual system.local / system.peers present a correct, mutually consistent ring
 -/
@@ -231,5 +232,53 @@ example : (buildNodes { rpc := some [10, 0, 0, 2], rpcName := "b", peers :=
        { addr := some [10, 0, 0, 2], name := "b" }] }).toOption.map (·.map fun n => (n.name, n.isLocal, n.tokens)) =
     some [("a", false, ["-9223372036854775808"]), ("b", true, ["-4611686018427387904"]), ("c", false, ["0"])] := by
   decide
+
+/-! ### host ids: `nameBasedUUID` (Model/Md5) -/
+section HostId
+open CqlVerif.Md5
+
+theorem le32_length (x : UInt32) : (le32 x).length = 4 := rfl
+theorem md5_length (msg : List UInt8) : (md5 msg).length = 16 := by
+  simp [md5, le32_length]
+
+theorem v3_bits : ∀ n : Fin 256, ((UInt8.ofNat n.val &&& 0x0F) ||| 0x30).toNat / 16 = 3 := by decide +kernel
+theorem var_bits : ∀ n : Fin 256, ((UInt8.ofNat n.val &&& 0x3F) ||| 0x80).toNat / 64 = 2 := by decide +kernel
+
+theorem v3_bits' (b : UInt8) : ((b &&& 0x0F) ||| 0x30).toNat / 16 = 3 := by
+  have := v3_bits ⟨b.toNat, b.toNat_lt⟩
+  simpa using this
+theorem var_bits' (b : UInt8) : ((b &&& 0x3F) ||| 0x80).toNat / 64 = 2 := by
+  have := var_bits ⟨b.toNat, b.toNat_lt⟩
+  simpa using this
+
+/-- **host_id_is_version3_uuid** — for every address text: the host id the proxy presents is 16 bytes, its version
+nibble is 3, its variant bits are `10` (RFC 4122), and every other bit is the MD5 digest of the text: a
+deterministic function of the address and nothing else (no clock, no randomness, no dependence on which proxy
+computes it). -/
+theorem host_id_is_version3_uuid (name : List UInt8) :
+    (nameBasedUUID name).length = 16 ∧
+    ((nameBasedUUID name).getD 6 0).toNat / 16 = 3 ∧ ((nameBasedUUID name).getD 8 0).toNat / 64 = 2 ∧
+    ∀ i, i ≠ 6 → i ≠ 8 → (nameBasedUUID name).getD i 0 = (md5 name).getD i 0 := by
+  have hl := md5_length name
+  refine ⟨by simp [nameBasedUUID, stamp, hl], ?_, ?_, ?_⟩
+  · simp only [nameBasedUUID, stamp, List.getD_eq_getElem?_getD]
+    rw [List.getElem?_set_ne (by decide), List.getElem?_set_self (by omega)]
+    exact v3_bits' _
+  · simp only [nameBasedUUID, stamp, List.getD_eq_getElem?_getD]
+    rw [List.getElem?_set_self (by simp [hl])]
+    exact var_bits' _
+  · intro i h6 h8
+    simp only [nameBasedUUID, stamp, List.getD_eq_getElem?_getD]
+    rw [List.getElem?_set_ne (by omega), List.getElem?_set_ne (by omega)]
+
+/-- the MD5 of Model/Md5 on the test suite of RFC 1321 (kernel-evaluated) and on an address -/
+example : hex (md5 []) = "d41d8cd98f00b204e9800998ecf8427e" ∧ hex (md5 [97]) = "0cc175b9c0f1b6a831c399e269772661" ∧
+    hex (md5 [97, 98, 99]) = "900150983cd24fb0d6963f7d28e17f72" ∧
+    hex (md5 "message digest".toUTF8.toList) = "f96b697d7cb7938d525a2f31aaf161d0" ∧
+    hex (md5 "abcdefghijklmnopqrstuvwxyz".toUTF8.toList) = "c3fcd3d76192e4007dfb496cca67e13b" ∧
+    hex (md5 "12345678901234567890123456789012345678901234567890123456789012345678901234567890".toUTF8.toList) = "57edf4a22be3c955ac49da2e2107b67a" ∧
+    hex (nameBasedUUID "127.0.0.1".toUTF8.toList) = "f528764d624d3129b32c21fbca0cb8d6" := by
+  decide +kernel
+end HostId
 
 end CqlVerif.C10
